@@ -20,3 +20,26 @@ claim(
     'comparison; dominance (must-facts) for --unchecked; who-may-write for '
     'golden records',
     'DESIGN.md §4 C09')
+
+claim(
+    'C14', 'proof',
+    'Finite obligations over constants of the source, all discharged by '
+    'folding (partial evaluation of the registry, option-declaration, '
+    'toggle-action, detection and pass-builder code with symbolic option '
+    'values, forking on every symbolic condition): registry/class/option/'
+    'attribute bijection; one attribute-name derivation at all sites; a '
+    'mutator is built iff its own declared toggle is true; both pass builders '
+    'schedule every registered mutator under its own toggle on every folded '
+    'path (last hierarchical pass unrestricted; ddmin omits only binary '
+    'reduction); toggle actions for all 8 groups x both polarities x prior '
+    'states; automatic detection writes only False, only for unset groups '
+    'without evidence, before the passes are built. Right level: the enabled '
+    'set is a function of source constants and three small actions.',
+    'Trusted: CPython ast; the folder /verif/sa/fold.py (fails closed outside '
+    'its expression language); argparse invokes an action once per option '
+    'occurrence in command-line order (order sensitivity and abbreviations '
+    'are argparse\'s). Pairs of toggles interacting inside a pass builder are '
+    'covered through symbolic guards, not by enumerating 2^53 configurations.',
+    'constant folding / partial evaluation with guarded lists; who-may-'
+    'instantiate and who-may-write queries; dominance for the enabled-test',
+    'DESIGN.md §4 C14')
